@@ -1,6 +1,8 @@
 package pass1
 
 import (
+	"log"
+
 	"github.com/HobbyOSs/gosk/internal/ast" // Restored ast import
 	"github.com/HobbyOSs/gosk/internal/client"
 	"github.com/HobbyOSs/gosk/internal/codegen" // Import codegen package
@@ -28,6 +30,12 @@ type Pass1 struct {
 // 処理中に CodeGenContext の GlobalSymbolList と ExternSymbolList を更新します。
 func (p *Pass1) Eval(program ast.Prog, ctx *codegen.CodeGenContext) { // Add ctx argument, remove return type
 	TraverseAST(program, p)
+	// GLOBAL で宣言されたのにどこにも定義されていない名前は (バイナリ出力でも) 黙って無視せずに報告する
+	for _, name := range p.GlobalSymbolList {
+		if _, defined := p.SymTable[name]; !defined {
+			log.Printf("warn: GLOBAL symbol '%s' is not defined in this file", name)
+		}
+	}
 	// Update the context directly instead of returning
 	ctx.GlobalSymbolList = p.GlobalSymbolList
 	ctx.ExternSymbolList = p.ExternSymbolList
